@@ -12,7 +12,10 @@ from .assemble import Unit, assemble, ExtractError
 ROOT = os.path.dirname(os.path.dirname(os.path.abspath(__file__)))
 REPO = os.environ.get('VERIF_REPO', '/repo')
 CACHE = os.path.join(ROOT, '.cache')
-BUILD = os.path.join(ROOT, 'build')
+# generated unit files: /verif/build for the default tree; a separate directory per alternative tree (VERIF_REPO), so that
+# a seeded / scratch run never shares generated files with a run on /repo
+BUILD = os.path.join(ROOT, 'build') if os.path.abspath(REPO) == '/repo' else os.path.join(
+    CACHE, 'build-' + hashlib.sha1(os.path.abspath(REPO).encode()).hexdigest()[:8])
 VERUS_RLIMIT = '30'
 VERUS_TIMEOUT = 900
 
@@ -131,6 +134,8 @@ def verus_run(path, text):
             pass
     cmd = ['verus', path, '--output-json', '--time-expanded', '--error-format=json', '--multiple-errors', '6',
            '--rlimit', VERUS_RLIMIT, '--triggers-mode', 'silent']
+    with open(path, 'w') as fh:   # (re)write immediately before the run: the file on disk is the text whose hash keys the cache
+        fh.write(text)
     t = time.time()
     try:
         r = subprocess.run(cmd, stdout=subprocess.PIPE, stderr=subprocess.PIPE, text=True, timeout=VERUS_TIMEOUT,
